@@ -100,7 +100,17 @@ def _worker_init():
     warnings.filterwarnings('ignore')
 
 
+def _die_with_parent():
+    try:
+        import ctypes
+        import signal
+        ctypes.CDLL("libc.so.6").prctl(1, signal.SIGKILL)   # PR_SET_PDEATHSIG
+    except Exception:
+        pass
+
+
 def _run_one(modname, params):
+    _die_with_parent()
     _worker_init()
     t0 = time.time()
     try:
